@@ -121,8 +121,8 @@ CHECKS = {
     ),
     "C03": dict(
         title="Every mutating contract method is inert without its required witnesses",
-        quick=dict(groups=[E("matrix", "^TestC03Matrix$", 12), E("rotation", "^TestC03Rotation$", 2), E("arg-sweep", "^TestC03ArgSweep$", 12, env=dict(VERIF_C03_SWEEP_N="3")), G("args", "^TestC03Args$", 40, 4)]),
-        thorough=dict(groups=[E("matrix", "^TestC03Matrix$", 16), E("rotation", "^TestC03Rotation$", 2), E("arg-sweep", "^TestC03ArgSweep$", 16, env=dict(VERIF_C03_SWEEP_N="1,3,7")), G("args", "^TestC03Args$", 1500, 16)]),
+        quick=dict(groups=[E("matrix", "^TestC03Matrix$", 12), E("rotation", "^TestC03Rotation$", 2), E("re-election", "^TestC03Matrix$", 6, env=dict(VERIF_C03_REELECT="1", VERIF_C03_N="1,3")), E("arg-sweep", "^TestC03ArgSweep$", 12, env=dict(VERIF_C03_SWEEP_N="3")), G("args", "^TestC03Args$", 40, 4)]),
+        thorough=dict(groups=[E("matrix", "^TestC03Matrix$", 16), E("rotation", "^TestC03Rotation$", 2), E("re-election", "^TestC03Matrix$", 8, env=dict(VERIF_C03_REELECT="1", VERIF_C03_N="1,3,4")), E("arg-sweep", "^TestC03ArgSweep$", 16, env=dict(VERIF_C03_SWEEP_N="1,3,7")), G("args", "^TestC03Args$", 1500, 16)]),
     ),
     "C13": dict(
         title="Committee-run deployment converges, deploys exactly once, is idempotent",
